@@ -14,6 +14,9 @@ func init() {
 			c.EntryAlignment("C01", s, "att")
 			c.StateStoreDiscipline("C01", s, "att")
 			c.RulerLocking("C01")
+			c.RulerKeyAgreement("C01")
+			c.SignIffApproved("C01", map[string]bool{"SignBeaconAttestation": true, "SignBeaconAttestations": true})
+			c.SigningRootProvenance("C01")
 			c.StoreCommit("C03", s)
 		},
 		Explanation: "Structural obligations whose conjunction implies that a stored attestation watermark (S,T) bounds every released attestation and that a new one is approved only if it neither double-votes nor surrounds/is surrounded: see DESIGN.md §5 C01.",
